@@ -118,7 +118,7 @@ NULLABLE = ("d->search", "d->align")
 
 
 def null_rule(ctx, P):
-    r = ctx.rule("NULL.fields", "in decoder.c every dereference through d->search / d->align, and every call that passes them to a function that dereferences the argument, is dominated by a non-NULL test of the field (after its last store) or by a store of a freshly tested value", floor=20)
+    r = ctx.rule("NULL.fields", "in decoder.c every dereference through d->search / d->align, and every call that passes them to a function that dereferences the argument, is dominated by a non-NULL test of the field (after its last store) or by a store of a freshly tested value", floor=12)
     for f in P.functions("decoder.c"):
         if not f.file.endswith("decoder.c"):
             continue
@@ -200,7 +200,7 @@ def receiver_rule(ctx, P):
 
 
 def iter_rule(ctx, P, fns):
-    r = ctx.rule("ITER.early", "a loop that advances a self-freeing iterator (x = *_iter_next(x)) and can be left before the iterator is exhausted releases the iterator on that exit, or hands it on", floor=25)
+    r = ctx.rule("ITER.early", "a loop that advances a self-freeing iterator (x = *_iter_next(x)) and can be left before the iterator is exhausted releases the iterator on that exit, or hands it on", floor=18)
     for f in fns:
         if f.name in NOT_CALLED:
             continue
@@ -266,7 +266,7 @@ ALLOC_EXEMPT = {("listelem_add_block", "list->freelist"): "byte pool of elemsize
 
 
 def allocsz_rule(ctx, P):
-    r = ctx.rule("ALLOCSZ", "every allocation assigned to a pointer to elements wider than one byte is sized in units of that element (some term of the byte size is a multiple of the element size)", floor=150)
+    r = ctx.rule("ALLOCSZ", "every allocation assigned to a pointer to elements wider than one byte is sized in units of that element (some term of the byte size is a multiple of the element size)", floor=110)
     n = 0
     for f in P.repo_functions():
         if unit_of(f) in GENERATED or unit_of(f) in ("ckd_alloc.c",):
@@ -450,7 +450,7 @@ def run(ctx):
     null_rule(ctx, P)
     api = [f for f in P.repo_functions() if unit_of(f) in API_UNITS]
     c10.consume_rule(ctx, P, api)
-    c17.unwind_rule(ctx, P, api, floor=60, only_readers=False, extra_allocs=("copy_header_value", "string_join", "s3file_copy_nextword", "decoder_lookup_word", "fopen"), extra_frees=("fclose", "*_free"), extra_owned=("alignment_init", "fsg_model_init", "jsgf_grammar_new", "lattice_init", "fsg_model_read_s3file", "fsg_model_readfile", "jsgf_parse_string", "jsgf_parse_file", "jsgf_build_fsg", "hash_table_new", "*ctor"))
+    c17.unwind_rule(ctx, P, api, floor=40, only_readers=False, extra_allocs=("copy_header_value", "string_join", "s3file_copy_nextword", "decoder_lookup_word", "fopen"), extra_frees=("fclose", "*_free"), extra_owned=("alignment_init", "fsg_model_init", "jsgf_grammar_new", "lattice_init", "fsg_model_read_s3file", "fsg_model_readfile", "jsgf_parse_string", "jsgf_parse_file", "jsgf_build_fsg", "hash_table_new", "*ctor"))
     receiver_rule(ctx, P)
     iter_rule(ctx, P, [f for f in P.repo_functions() if unit_of(f) not in GENERATED])
     allocsz_rule(ctx, P)
